@@ -45,17 +45,19 @@ def notes_of(seqs):
     return res
 
 
-def q_groups(name, fl, bins, build, plan, direct=False, bar_tokens=True):
+def q_groups(name, fl, bins, build, plan, direct=False, bar_tokens=True, meta_track=0, whole_from_original=False):
     def fn(ctx):
         ntr, piece = build(ctx)
         tok = mk(fl, bins, ntr)
         seqs = piece.sequences()
-        bars = Sequence.sequences_split_bars(seqs, 0)
+        bars = Sequence.sequences_split_bars(seqs, meta_track)
         nb = len(bars[0])
         ctx.note("bars", nb)
         if nb > 4:
             ctx.assume(False)
         whole_in = [Bar.to_sequence([b.copy() for b in tr]) for tr in bars]
+        if whole_from_original:
+            whole_in = piece.sequences()       # the piece as the caller has it (it ends on a bar line)
         ok, whole_tokens = call(tok.tokenise, whole_in, insert_bar_token=bar_tokens)
         ctx.must("whole_piece_tokenises", ok, disc=None if ok else type(whole_tokens).__name__)
         if not ok:
@@ -119,7 +121,7 @@ def q_groups(name, fl, bins, build, plan, direct=False, bar_tokens=True):
             conds.append(multiset_eq([[g[0], g[1], g[2]] for g in ref[ti][0]], [[n.pitch, n.start, n.end] for n in want]))
         ctx.must("whole_stream_reproduces_input", and_(conds))
         return [whole_tokens, [str(b) for b in bad]]
-    return Query(f"groups/{name}/{plan}/f{''.join(str(int(x)) for x in fl)}-b{bins}{'/direct' if direct else ''}{'' if bar_tokens else '/nobartokens'}", fn,
+    return Query(f"groups/{name}/{plan}/f{''.join(str(int(x)) for x in fl)}-b{bins}{'/direct' if direct else ''}{'' if bar_tokens else '/nobartokens'}{'/original-meta' + str(meta_track) if whole_from_original else ''}", fn,
                  ["whole_piece_tokenises", "every_grouping_equals_whole", "whole_stream_reproduces_input"],
                  desc=f"all groupings of the bars of piece {name}")
 
@@ -159,6 +161,33 @@ def piece_c(plan):
         p.add(0, 60, start, [12, 24, 36][ctx.int("i1", 0, 2)], ctx.int("v1", 1, 40))
         p.add(0, 62, lines[2] + 6 * ctx.int("k", 0, 6), 12, 64)
         return 1, p
+    return b
+
+
+def piece_e(plan):
+    """two tracks, signatures on the SECOND track, a first-track note on the bar line of the signature change,
+    the piece ends on a bar line"""
+    def b(ctx):
+        p = Piece(2, plan, meta_track=1)
+        lines = [0] + bar_lines(plan, 400)
+        p.add(0, 60, lines[1], 12, ctx.int("v1", 1, 40))
+        p.add(1, 61, 12 * ctx.int("k", 0, 5), 12, 64)
+        p.add(0, 62, lines[1] + 12 * ctx.int("j", 1, 4), 12, 64)
+        p.cap = lines[3]
+        return 2, p
+    return b
+
+
+def piece_f(plan):
+    """as piece_e, but the first track sounds first (it wins onset ties) and the first signature arrives late"""
+    def b(ctx):
+        p = Piece(2, plan, meta_track=1)
+        lines = [0] + bar_lines(plan, 400)
+        p.add(0, 60, 12 * ctx.int("k", 0, 2), 12, ctx.int("v1", 1, 40))
+        p.add(0, 62, lines[1], 12, 64)
+        p.add(1, 61, 24 + 12 * ctx.int("j", 0, 8), 12, 64)
+        p.cap = lines[3]
+        return 2, p
     return b
 
 
@@ -242,6 +271,9 @@ def queries(tier, seed):
         qs.append(q_groups("a", FLAGS[0], 1, piece_a(plan), plan))
         qs.append(q_groups("c", FLAGS[15], 8, piece_c(plan), plan))
     qs.append(q_groups("c", FLAGS[0], 1, piece_c("none"), "none"))
+    qs.append(q_groups("e", FLAGS[0], 1, piece_e("44-34"), "44-34", meta_track=1, whole_from_original=True))
+    qs.append(q_groups("e", FLAGS[15], 8, piece_e("34-58"), "34-58", meta_track=1, whole_from_original=True))
+    qs.append(q_groups("f", FLAGS[0], 1, piece_f("late34"), "late34", meta_track=1, whole_from_original=True))
     qs.append(q_split_chunks(FLAGS[0], 1))
     qs.append(q_split_chunks(FLAGS[15], 8))
     qs.append(q_groups("a", FLAGS[0], 1, piece_a("34-38-34"), "34-38-34"))     # signature history A -> B -> A
